@@ -90,7 +90,7 @@ theorem scanHistogram_spec (histogram : List Nat) :
           (histogram.getD i 0 :: (histogram.drop (i + 1)).take cnt)).length
           = 1 + (((histogram.drop (i + 1)).take cnt).filter (· ≠ 0)).length := by
         generalize histogram.getD i 0 = x at h0
-        simp [List.filter_cons, h0]; omega
+        simp [h0]; omega
       rw [hf]
       by_cases hc4 : count < 4
       · simp only [hc4, ↓reduceIte]
@@ -142,7 +142,7 @@ theorem goodBits_of_convert (depth' bits bits' : List Nat) (len M : Nat) (hM : M
   refine ⟨h2, h3, ?_⟩
   intro i hi
   have hg : (depth'.take len).getD i 0 = depth'.getD i 0 := by
-    simp [List.getD_eq_getElem?_getD, List.getElem?_take, hi]
+    simp [List.getD_eq_getElem?_getD, hi]
   rw [h4 i hi, hg]
 
 /-- `BuildAndStoreHuffmanTree` (exact builder), two or more symbols in use among
